@@ -16,6 +16,8 @@ pub enum Op {
     /// write guard: read, scheduling point, write f(read); the set must return what was read
     WriteRmw(u64),
     CloneOwner,
+    /// the unique `Observable` becomes a `SharedObservable` (subscribers stay valid)
+    IntoShared,
     DropOwner,
     Downgrade,
     Upgrade { keep: bool },
@@ -172,6 +174,12 @@ pub fn gen_program(prop: &str, seed: u64, index: u64) -> Program {
                 if g.chance(1, 3) {
                     ops.insert(g.below(ops.len() + 1), Op::Subscribe { reset: g.chance(1, 2) });
                 }
+                if unique && g.chance(1, 2) {
+                    ops.insert(g.below(ops.len() + 1), Op::IntoShared);
+                    if g.chance(1, 2) {
+                        ops.push(Op::CloneOwner);
+                    }
+                }
                 threads.push(ThreadSpec { owners: 1, weak: false, sub: None, ops });
             }
             let subs = 1 + g.below(3);
@@ -208,6 +216,9 @@ pub fn gen_program(prop: &str, seed: u64, index: u64) -> Program {
                         5 => Op::Yield,
                         _ => Op::DropOwner,
                     });
+                }
+                if unique && g.chance(1, 2) {
+                    ops.insert(0, Op::IntoShared);
                 }
                 ops.push(Op::DropOwner);
                 let weak = !unique && g.chance(1, 3);
